@@ -185,6 +185,15 @@ def c03(L, tier, jobs=16):
     s.holds("non-dummy => header tree root = Merkle root", z3.Implies(nd, eq4(L.I("zk_tree_root"), L.root)))
     s.holds("depth <= 16", L.depth <= 16)
     s.holds("every position in 0..3", z3.And([z3.And(p >= 0, p <= 3) for p in L.pos]))
+    # --- shallow paths asked directly (no cut points, hence independent of how the walk is written): for depth d in 0..2
+    # a non-dummy statement's root is the d-level fold of the leaf hash
+    leafh0 = L.sp.hash(L.to + L.tc + [L.asset, L.inp])
+    for d in ((0, 1, 2) if tier == "quick" else (0, 1, 2, 3)):
+        F = leafh0
+        for l in range(d):
+            F = L.sp.hash(_ins([L.I(f"sib_{l}_{k}") for k in range(3)], L.pos[l], F))
+        s.holds(f"direct: non-dummy and depth = {d} => root_hash = {d}-level fold of H(recipient||count||asset||input)",
+                z3.Implies(z3.And(nd, L.depth == d), eq4(L.root, F)))
     # --- Merkle fold via per-level lemmas at cut points
     cuts, why = find_cuts(L)
     if cuts is None:
